@@ -390,7 +390,7 @@ def real_step(op, d, others):
 # ---------------------------------------------------------------- choosing an operation for the current state
 OP_KINDS = ['set_fit', 'set_scalar', 'set_len1', 'set_misfit', 'set_attr', 'set_existing', 'del_item', 'del_attr', 'update', 'update_misfit',
             'call_const', 'call_list', 'call_misfit', 'derive', 'derive2', 'sub', 'sub_list', 'sub_absent', 'slice', 'slice_step', 'mask', 'mask_none',
-            'take', 'take_empty', 'project', 'relabel_kw', 'relabel_fn', 'relabel_prefix', 'relabel_suffix', 'rename', 'relabel_dict', 'do_all', 'do_cols', 'do_list', 'do_other', 'do_other_chain',
+            'take', 'take_empty', 'project', 'relabel_kw', 'relabel_fn', 'relabel_prefix', 'relabel_suffix', 'rename', 'relabel_dict', 'relabel_swap', 'relabel_chain', 'do_all', 'do_cols', 'do_list', 'do_other', 'do_other_chain',
             'add_table', 'add_disjoint', 'add_empty', 'add_norows', 'radd_table', 'add_record', 'add_records', 'add_none', 'sum', 'concat', 'concat_list',
             'inc', 'exc', 'sort', 'copy', 'rebuild_records', 'rebuild_columns', 'rebuild_rows']
 
@@ -514,6 +514,12 @@ def make_op(kind, m, rng):
         if not has:
             return None
         return dict(op='relabel', how={'relabel_kw': 'kw', 'rename': 'rename', 'relabel_dict': 'dict'}[kind], map={col: fresh(m, rng)}), []
+    if kind in ('relabel_swap', 'relabel_chain'):       # renames are simultaneous: two columns swap their names; a -> b while b -> a fresh name
+        if len(m.cols) < 2:
+            return None
+        c1, c2 = rng.sample(m.cols, 2)
+        mp = {c1: c2, c2: c1} if kind == 'relabel_swap' else {c1: c2, c2: fresh(m, rng)}
+        return dict(op='relabel', how=rng.choice(['kw', 'rename', 'dict']), map=mp), []
     if kind == 'relabel_fn':
         return dict(op='relabel', how='fn', map=dict((c, c + '_f') for c in m.cols)), []
     if kind == 'relabel_prefix':
